@@ -23,7 +23,7 @@ def strata(tier):
         maxsizes=(2, 1, 3, 5, None, 0),
         weights={'call': 16, 'burst': 1, 'load': 1, 'dump': 2, 'dumpk': 1, 'loadk': 1, 'clear': 1, 'clearkeep': 0,
                  'arch_off': 1, 'arch_on': 1, 'awrite': 1, 'redecorate': 2, 'reopen': 1, 'dumpreopen': 2, 'fork': 1},
-        max_ops=30 if tier == 'quick' else 60, pool=(3, 7), prefill_pct=10)
+        max_ops=30 if tier == 'quick' else 60, pool=(3, 7), prefill_pct=10, relpath_pct=40)
 
 
 def per_call(case, tr, flags=None):
@@ -105,5 +105,5 @@ def run_case(case):
     return discrs, nt, sorted(set(classes))
 
 
-REQUIRED_CLASSES = ['repeat_after_eviction', 'repeat_after_switch', 'fork', 'module:safe', 'eff_algo:no', 'eff_algo:mru', 'eff_algo:lfu', 'eff_algo:rr']
+REQUIRED_CLASSES = ['relative_dir_archive:existing', 'chdir_away', 'repeat_after_eviction', 'repeat_after_switch', 'fork', 'module:safe', 'eff_algo:no', 'eff_algo:mru', 'eff_algo:lfu', 'eff_algo:rr']
 TRIGGERS = {}
